@@ -25,6 +25,7 @@ import (
 	"go.etcd.io/etcd/clientv3"
 
 	"verifharness/internal/etcdh"
+	"verifharness/internal/monoclock"
 	_ "verifharness/internal/quiet"
 	"verifharness/internal/rng"
 	"verifharness/internal/trace"
@@ -257,7 +258,9 @@ func (w *world) exec(op string) (string, int) {
 		for _, x := range w.mems {
 			x.ls.Reset()
 		}
-		m.alloc.Reset()
+		// the member's previous term ends the way campaignLeader ends it: leadership first, then the
+		// allocator group (so the production step-down code is what clears the memory before the new term)
+		w.resetGroup(m)
 		if err := m.ls.Campaign(3600, fmt.Sprintf("m%d", id)); err != nil {
 			panic(fmt.Sprintf("campaign failed: %v", err))
 		}
@@ -645,7 +648,8 @@ func main() {
 	ctx, cancel := context.WithCancel(context.Background())
 	defer cancel()
 	w := &world{e: e, ctx: ctx, mems: map[int]*mem{}}
-	tso.VerifClock = func() time.Time { return time.Unix(0, atomic.LoadInt64(&w.now)) }
+	monoclock.SelfCheck()
+	tso.VerifClock = func() time.Time { return monoclock.At(atomic.LoadInt64(&w.now)) }
 	tso.VerifSleep = func(time.Duration) {
 		if h := w.sleepHook; h != nil {
 			h()
